@@ -16,10 +16,11 @@ CONSTANTS Accts, Paths, Vals, TArgs, MaxOps, MaxTx
 None == [ty |-> "none", id |-> 0]
 
 \* nominal universe of the storage model: two structs (S conforms to interface I), Int,
-\* two resources (R conforms to interface RI)
+\* two resources (R conforms to interface RI), and OptInt: a stored value whose own (dynamic) type is
+\* the optional type Int? -- a subtype of AnyStruct but of no other type argument of the model
 IsResTy(t) == t \in {"R", "R2", "RI", "AnyResource"}
 Sub(t, u) == \/ t = u
-             \/ u = "AnyStruct"   /\ t \in {"S", "S2", "Int", "I"}
+             \/ u = "AnyStruct"   /\ t \in {"S", "S2", "Int", "I", "OptInt"}
              \/ u = "AnyResource" /\ t \in {"R", "R2", "RI"}
              \/ u = "I"  /\ t = "S"
              \/ u = "RI" /\ t = "R"
